@@ -106,3 +106,120 @@ def angle_dimension_rule(repo: Repo, prop: str, rule_id: str, module_prefixes: T
             )
     r.note(f"{unjudged} rotate() call(s) whose angle could not be typed are not judged")
     return r
+
+
+# ---------------------------------------------------------------------------------------------------------------------
+# homogeneity degree: how a quantity scales when every position of the model is multiplied by s (positions 1, tolerances and
+# literals 0, norm / abs keep the degree, cross / dot / products add degrees, quotients subtract, sqrt halves). A comparison
+# whose two sides differ by two or more degrees decides differently for the same shape at another model size.
+class Inhomogeneous(Exception):
+    pass
+
+
+def homogeneity(e: ast.expr, env: Dict[str, object], defs: Dict[str, ast.expr], depth: int = 0):
+    """Degree (int / float) of an expression; None for the literal 0 (any degree). Raises Inhomogeneous when a sum mixes degrees
+    and _Unknown when a construct is not understood."""
+    if isinstance(e, ast.Constant) and isinstance(e.value, (int, float)):
+        return None if e.value == 0 else 0
+    if isinstance(e, ast.Name):
+        if e.id in env:
+            return env[e.id]
+        if e.id in defs and depth < 6:
+            return homogeneity(defs[e.id], env, defs, depth + 1)
+        raise _Unknown(e.id)
+    if isinstance(e, ast.Attribute):
+        if e.attr in ("pi", "TOL", "VSMALL", "VBIG"):
+            return 0
+        if e.attr in ("position", "center", "origin", "point"):
+            return 1
+        if e.attr in ("length", "radius"):
+            return 1
+        raise _Unknown(ast.unparse(e))
+    if isinstance(e, ast.Subscript):
+        return homogeneity(e.value, env, defs, depth)
+    if isinstance(e, ast.UnaryOp):
+        return homogeneity(e.operand, env, defs, depth)
+    if isinstance(e, ast.BinOp):
+        a, b = homogeneity(e.left, env, defs, depth), homogeneity(e.right, env, defs, depth)
+        if isinstance(e.op, (ast.Add, ast.Sub)):
+            if a is None:
+                return b
+            if b is None or a == b:
+                return a
+            raise Inhomogeneous(f"'{ast.unparse(e)[:60]}' adds quantities of degree {a} and {b}")
+        if isinstance(e.op, ast.Mult):
+            return None if a is None or b is None else a + b
+        if isinstance(e.op, ast.Div):
+            if b is None:
+                raise _Unknown("division by zero")
+            return None if a is None else a - b
+        if isinstance(e.op, ast.Pow) and isinstance(e.right, ast.Constant) and isinstance(e.right.value, (int, float)):
+            return None if a is None else a * e.right.value
+        raise _Unknown("operator")
+    if isinstance(e, ast.Call):
+        nm = (attr_chain(e.func) or "").split(".")[-1]
+        args = [homogeneity(a, env, defs, depth) for a in e.args]
+        if nm in ("norm", "abs", "fabs", "absolute", "asarray", "array", "float", "max", "min", "sum", "mean") and args:
+            known = [a for a in args if a is not None]
+            if len(set(known)) > 1:
+                raise Inhomogeneous(f"'{ast.unparse(e)[:60]}' combines quantities of degree {sorted(set(known))}")
+            return known[0] if known else None
+        if nm in ("cross", "dot", "inner", "vdot") and len(args) == 2:
+            return None if None in args else args[0] + args[1]
+        if nm == "dot" and len(args) == 1 and isinstance(e.func, ast.Attribute):
+            a0 = homogeneity(e.func.value, env, defs, depth)
+            return None if a0 is None or args[0] is None else a0 + args[0]
+        if nm == "sqrt" and len(args) == 1:
+            return None if args[0] is None else args[0] / 2
+        if nm in ("unit_vector", "angle_between", "sin", "cos", "tan", "arccos", "arcsin", "arctan2", "sign", "radians"):
+            return 0
+        if nm in LENGTH_CALLS:
+            return 1
+        raise _Unknown(nm)
+    raise _Unknown(type(e).__name__)
+
+
+def scale_free_comparison_rule(repo: Repo, prop: str, rule_id: str, functions, allowed=(0, 1), floor: int = 1) -> RuleRun:
+    """Every comparison that decides the result of the named predicates compares sides whose homogeneity degrees differ by an
+    allowed amount: 0 (an angle-like, scale-free criterion) or 1 (a length against the library's absolute length tolerance - its
+    convention for coincident points). A difference of 2 (an area / a product of two lengths against the plain tolerance) makes
+    the verdict depend on the model's size: a millimetre-sized model written in metres loses its arcs."""
+    from .model import AnalysisError, walk_shallow
+
+    r = RuleRun(prop, rule_id, floor=floor, what="collinearity / validity comparisons scale consistently with the model: both sides of the same degree in the positions, or a length against the absolute length tolerance - not an area (product of two lengths) against the plain tolerance")
+    n = 0
+    for q in functions:
+        fn = repo.func(q)
+        defs: Dict[str, ast.expr] = {}
+        for st in walk_shallow(fn.node):
+            if isinstance(st, ast.Assign) and len(st.targets) == 1 and isinstance(st.targets[0], ast.Name):
+                defs[st.targets[0].id] = st.value
+        k = 0
+        for node in ast.walk(fn.node):
+            if not (isinstance(node, ast.Compare) and len(node.ops) == 1 and isinstance(node.ops[0], (ast.Lt, ast.LtE, ast.Gt, ast.GtE))):
+                continue
+            try:
+                a = homogeneity(node.left, {}, defs)
+                b = homogeneity(node.comparators[0], {}, defs)
+            except Inhomogeneous as err:
+                r.bad(fn, f"{fn.qualname}: {err}: the verdict changes with the size of the model", node, key=f"compare#{k}")
+                k += 1
+                n += 1
+                continue
+            except _Unknown as err:
+                raise AnalysisError(f"{fn.qualname}: scaling degree of '{ast.unparse(node)[:70]}' not determined ({err})") from err
+            n += 1
+            diff = None if a is None or b is None else a - b
+            r.check(
+                diff is None or diff in allowed,
+                fn,
+                f"'{ast.unparse(node)[:60]}': degrees {a} vs {b}",
+                f"{fn.qualname}: '{ast.unparse(node)[:90]}' compares a quantity that scales with the model size to the power {a} against one of power {b}: "
+                "the same shape is judged differently at another size - with an absolute tolerance of 1e-7 on the cross product of the two arms every arc of a model smaller than about a millimetre "
+                "is declared collinear and silently left out of the dictionary (and nearly collinear arcs of a very large model are written and crash blockMesh)",
+                node,
+                key=f"compare#{k}",
+            )
+            k += 1
+    r.require(n >= floor, f"only {n} deciding comparisons found")
+    return r
